@@ -28,7 +28,7 @@ ASSUMPTIONS = ["a crash is process death immediately before a file-system step; 
                "interleavings are sampled with injected delays between real processes, not enumerated",
                "the network is replaced by an in-memory fake of the GitHub listing in the download scenarios only"]
 MIN_MONITOR_EVALS = {"crash-point": 60, "post-crash-load": 120, "cache-files-byte-identical": 60, "schedule": 10,
-                     "lock-interval-pairs": 50, "lock-timeout": 2, "refresh-skipped": 4,
+                     "lock-interval-pairs": 50, "lock-timeout": 2, "refresh-skipped": 6,
                      "failed-refresh": 10}
 WATCHDOG_S = {"quick": 1200, "thorough": 7200}
 JOBS = {"quick": 16, "thorough": 16}
@@ -504,6 +504,29 @@ def run_timeout_refresh(shard, rec):
         if second != -1 or n2 != 0:
             rec.violation("a refresh attempted inside the refresh interval performed work", dict(case, second=second, requests=n2))
         check_cache_files(folder, rec, case)
+        # a longer history on a virtual clock: refresh, wait out the interval, refresh, try again at once
+        import types
+        import hed.schema.hed_cache_lock as lockmod
+        shutil.rmtree(folder, ignore_errors=True)
+        os.makedirs(folder)
+        clock = [1_700_000_000.0]
+        real_time_mod = lockmod.time
+        lockmod.time = types.SimpleNamespace(time=lambda: clock[0])
+        rec.mon("refresh-skipped")
+        try:
+            history = []
+            for step, advance in enumerate([0, lockmod.CACHE_TIME_THRESHOLD + 1, 10, 5, lockmod.CACHE_TIME_THRESHOLD + 1, 3]):
+                clock[0] += advance
+                try:
+                    with CacheLock(folder):
+                        history.append("ran")
+                except CacheException:
+                    history.append("skipped")
+            if history != ["ran", "ran", "skipped", "skipped", "ran", "skipped"]:
+                rec.violation("refresh attempts on a virtual clock are not skipped exactly inside the interval of the last refresh",
+                              dict(kind="refresh-history", observed=history))
+        finally:
+            lockmod.time = real_time_mod
         # the library id data are refreshed from the network the same way: once per interval
         shutil.rmtree(folder, ignore_errors=True)
         os.makedirs(folder)
